@@ -68,6 +68,36 @@ pub fn bloom_history(ctx: &mut Ctx, nops: u64) {
             }
         }
     }
+    // clone_from into a filter of another shape / hasher that already holds other content; the
+    // receiver must then be a copy in every respect and evolve like the source
+    if ctx.rng.chance(1, 2) {
+        let bh2 = ctx.rand_hasher();
+        ctx.hasher(bh2);
+        let (m2, k2) = *ctx.rng.pick(&[(m + 1, k), (m, k + 1), ((m / 2).max(1), k.max(1)), (2 * m + 3, k.max(1)), (m, k.max(1))]);
+        ctx.op(format!("bloom.new 7 {} {}", m2, k2));
+        ctx.hasher(bh);
+        for _ in 0..ctx.rng.clone().below(5) {
+            let kk = keys.pick(ctx);
+            ctx.op(format!("bloom.insert 7 {}", kk));
+        }
+        let src = ctx.rng.range(1, 3);
+        let a = ctx.op(format!("bloom.clonefrom 7 {}", src));
+        if a == "ok" {
+            ctx.stat("bloom.clonefrom", 1);
+            ctx.op("bloom.getters 7".into());
+            ctx.op(format!("both bloom.len 7 {}", src));
+            for key in keys.univ.iter().take(24) {
+                ctx.op(format!("both bloom.query 7 {} {}", src, key));
+            }
+            for _ in 0..6 {
+                let kk = keys.pick(ctx);
+                ctx.op(format!("both bloom.insert 7 {} {}", src, kk));
+            }
+            ctx.op(format!("both bloom.len 7 {}", src));
+            ctx.op(format!("bloom.union 7 {}", src));
+            ctx.op(format!("both bloom.len 7 {}", src));
+        }
+    }
     // mismatching shapes must be rejected by union
     if ctx.rng.chance(1, 4) {
         ctx.op(format!("bloom.new 8 {} {}", m + 1, k));
@@ -196,6 +226,38 @@ pub fn cms_history(ctx: &mut Ctx, nops: u64) {
             }
         }
     }
+    // clone_from into a sketch of another shape (narrower / wider / other depth), other hasher
+    if ctx.rng.chance(1, 2) {
+        let bh3 = ctx.rand_hasher();
+        ctx.hasher(bh3);
+        let (w2, d2) = *ctx.rng.pick(&[((w / 2).max(1), d), (w + 3, d), (w, d + 1), (2 * w + 1, (d / 2).max(1)), (1, 1)]);
+        ctx.op(format!("cms.new 5 {} {} {}", ct, w2, d2));
+        ctx.hasher(bh);
+        for _ in 0..ctx.rng.clone().below(4) {
+            ctx.op(format!("cms.add 5 {}", *ctx.rng.clone().pick(&keys)));
+        }
+        let src = ctx.rng.range(1, 3);
+        let a = ctx.op(format!("cms.clonefrom 5 {}", src));
+        if a == "ok" {
+            ctx.stat("cms.clonefrom.shape", 1);
+            ctx.op("cms.getters 5".into());
+            for key in keys.iter().take(16) {
+                ctx.op(format!("both cms.query 5 {} {}", src, key));
+            }
+            for _ in 0..8 {
+                let k = *ctx.rng.pick(&keys);
+                let a = ctx.op(format!("both cms.add 5 {} {}", src, k));
+                if a.contains("panic") || a.contains("poisoned") {
+                    break;
+                }
+            }
+            for key in keys.iter().take(16) {
+                ctx.op(format!("both cms.query 5 {} {}", src, key));
+            }
+            ctx.op(format!("cms.merge 5 {}", src));
+            ctx.op("cms.empty 5".into());
+        }
+    }
     if ctx.rng.chance(1, 5) {
         ctx.op(format!("cms.new 8 {} {} {}", ct, w + 1, d));
         ctx.op("cms.merge 1 8".into());
@@ -276,6 +338,47 @@ pub fn cuckoo_history(ctx: &mut Ctx, nops: u64) {
             }
         }
     }
+    // clone_from into a filter of another geometry (same slot count split differently, other
+    // fingerprint width, other size), other hasher, holding other content
+    if ctx.rng.chance(1, 2) {
+        let bh2 = ctx.rand_hasher();
+        ctx.hasher(bh2);
+        let c2 = match ctx.rng.below(5) {
+            0 if c.nb >= 4 => CuckooCfg { bs: c.bs * 2, nb: c.nb / 2, lf: c.lf },
+            1 => CuckooCfg { bs: c.bs, nb: c.nb * 2, lf: c.lf },
+            2 => CuckooCfg { bs: c.bs, nb: c.nb, lf: *ctx.rng.pick(&[2u64, 5, 8, 13, 32, 64]) },
+            3 => CuckooCfg { bs: 2, nb: (c.bs * c.nb / 2).next_power_of_two().max(2), lf: c.lf },
+            _ => cuckoo_cfg(ctx),
+        };
+        cuckoo_new(ctx, 7, &c2);
+        ctx.hasher(bh);
+        for _ in 0..ctx.rng.clone().below(5) {
+            let kk = keys.pick(ctx);
+            ctx.op(format!("cuckoo.insert 7 {}", kk));
+        }
+        let src = ctx.rng.range(1, 3);
+        let a = ctx.op(format!("cuckoo.clonefrom 7 {}", src));
+        if a == "ok" {
+            ctx.stat("cuckoo.clonefrom", 1);
+            ctx.op("cuckoo.getters 7".into());
+            ctx.op(format!("both cuckoo.len 7 {}", src));
+            for key in keys.univ.iter().take(30) {
+                ctx.op(format!("both cuckoo.query 7 {} {}", src, key));
+            }
+            for _ in 0..8 {
+                let k = keys.pick(ctx);
+                if ctx.rng.chance(2, 3) {
+                    ctx.op(format!("both cuckoo.insert 7 {} {}", src, k));
+                } else {
+                    ctx.op(format!("both cuckoo.delete 7 {} {}", src, k));
+                }
+            }
+            ctx.op(format!("both cuckoo.len 7 {}", src));
+            for key in keys.univ.iter().take(30) {
+                ctx.op(format!("both cuckoo.query 7 {} {}", src, key));
+            }
+        }
+    }
     if ctx.rng.chance(1, 5) {
         for (bs, nb, lf) in [(1u64, 4u64, 8u64), (2, 5, 8), (2, 1, 8), (2, 0, 8), (2, 4, 1), (2, 4, 65), (0, 4, 8), (u64::MAX, 2, 2), (2, 1u64 << 63, 2), (2, 1u64 << 61, 64)] {
             ctx.op(format!("cuckoo.new 9 1 {} {} {}", bs, nb, lf));
@@ -348,6 +451,32 @@ pub fn qf_history(ctx: &mut Ctx, nops: u64) {
         } else {
             for key in pool.iter().take(40) {
                 ctx.op(format!("qf.query {} {}", i, key));
+            }
+        }
+    }
+    // clone_from into a filter with another quotient / remainder width holding other content
+    if ctx.rng.chance(1, 2) && q + r < 64 {
+        let (q2, r2) = *ctx.rng.pick(&[(q + 1, r), ((q - 1).max(1), r), (q, r + 1), (q + 1, (r - 1).max(1)), (q, r)]);
+        ctx.op(format!("qf.new 7 {} {}", q2, r2));
+        for _ in 0..ctx.rng.clone().below(4) {
+            ctx.op(format!("qf.insert 7 {}", *ctx.rng.clone().pick(&pool)));
+        }
+        let src = ctx.rng.range(1, 3);
+        let a = ctx.op(format!("qf.clonefrom 7 {}", src));
+        if a == "ok" {
+            ctx.stat("qf.clonefrom", 1);
+            ctx.op("qf.getters 7".into());
+            ctx.op(format!("both qf.len 7 {}", src));
+            for key in pool.iter().take(30) {
+                ctx.op(format!("both qf.query 7 {} {}", src, key));
+            }
+            for _ in 0..6 {
+                let key = *ctx.rng.pick(&pool);
+                ctx.op(format!("both qf.insert 7 {} {}", src, key));
+            }
+            ctx.op(format!("both qf.len 7 {}", src));
+            for key in pool.iter().take(30) {
+                ctx.op(format!("both qf.query 7 {} {}", src, key));
             }
         }
     }
@@ -443,6 +572,27 @@ pub fn res_history(ctx: &mut Ctx) {
         }
         ctx.op("res.get 1".into());
     }
+    // clone_from into a sampler with another k that has seen other items
+    if ctx.rng.chance(1, 2) {
+        let k2 = *ctx.rng.pick(&[k + 3, (k / 2).max(1), 1, k, 2 * k + 1]);
+        ctx.op(format!("res.new 7 {} {}", k2, ctx.rng.clone().next()));
+        for t in 0..ctx.rng.clone().below(3 * k2 + 2) {
+            ctx.op(format!("res.add 7 {}", 700_000 + t));
+        }
+        let a = ctx.op("res.clonefrom 7 1".into());
+        if a == "ok" {
+            ctx.stat("res.clonefrom", 1);
+            ctx.op("both res.get 7 1".into());
+            ctx.op("both res.empty 7 1".into());
+            for t in 0..(3 * k + 6) {
+                ctx.op(format!("both res.add 7 1 {}", 800_000 + t));
+                if t % 3 == 0 {
+                    ctx.op("both res.get 7 1".into());
+                }
+            }
+            ctx.op("both res.get 7 1".into());
+        }
+    }
     if ctx.rng.chance(1, 10) {
         ctx.op("res.new 5 0 1".into());
     }
@@ -512,6 +662,29 @@ pub fn lossy_history(ctx: &mut Ctx, n: u64) {
             ctx.op(format!("lossy.query 1 {}", fx(0.0)));
         }
     }
+    // clone_from into a counter with another width that tracks elements the source does not
+    if ctx.rng.chance(1, 2) {
+        let w2 = *ctx.rng.pick(&[width_guess + 3, (width_guess / 2).max(1), 1, width_guess, 50]);
+        ctx.op(format!("lossy.neww 7 {}", w2));
+        for t in 0..ctx.rng.clone().below(2 * w2 + 3) {
+            ctx.op(format!("lossy.add 7 {}", 9000 + t % 4));
+        }
+        let a = ctx.op("lossy.clonefrom 7 1".into());
+        if a == "ok" {
+            ctx.stat("lossy.clonefrom", 1);
+            ctx.op("both lossy.getters 7 1".into());
+            ctx.op("both lossy.n 7 1".into());
+            ctx.op(format!("both lossy.query 7 1 {}", fx(0.0)));
+            ctx.op(format!("both lossy.query 7 1 {}", fx(0.9)));
+            ctx.op(format!("both lossy.query 7 1 {}", fx(0.5)));
+            for t in 0..(2 * width_guess + 5) {
+                let key = if t % 5 == 0 { 9000 + t % 4 } else { ctx.rng.below(alpha) };
+                ctx.op(format!("both lossy.add 7 1 {}", key));
+            }
+            ctx.op(format!("both lossy.query 7 1 {}", fx(0.0)));
+            ctx.op("both lossy.n 7 1".into());
+        }
+    }
     if ctx.rng.chance(1, 8) {
         ctx.op("lossy.neww 5 0".into());
         ctx.op(format!("lossy.newe 5 {}", fx(0.0)));
@@ -541,6 +714,10 @@ pub fn heap_history(ctx: &mut Ctx, n: u64) {
         if ctx.rng.chance(1, 15) {
             // a small batch through Extend
             let mut items = vec![format!("{}:{}:{}", id, class, cols.join(","))];
+            // runs of equal items (first-seen elements while the heap has room, held ones, outsiders)
+            for _ in 0..(if ctx.rng.chance(1, 2) { ctx.rng.below(5) } else { 0 }) {
+                items.push(items[0].clone());
+            }
             for _ in 0..ctx.rng.clone().below(3) {
                 let id2 = ctx.rng.below(alpha);
                 let c2 = id2 % nclass;
@@ -568,6 +745,30 @@ pub fn heap_history(ctx: &mut Ctx, n: u64) {
             ctx.op("heap.empty 1".into());
         }
     }
+    // clone_from into a heap with another k / sketch shape that holds other elements
+    if ctx.rng.chance(1, 2) {
+        let k2 = *ctx.rng.pick(&[k + 2, (k / 2).max(1), 1, k, 9]);
+        let (w2, d2) = *ctx.rng.pick(&[(w, d), (w + 1, d), (2, 2), (64, 3)]);
+        ctx.op(format!("heap.new 7 {} {} {}", k2, w2, d2));
+        for _ in 0..ctx.rng.clone().below(2 * k2 + 3) {
+            let id = 500 + ctx.rng.below(6);
+            let cols: Vec<String> = crate::exec::heap_cols(w2 as usize, d2 as usize, id % 3).iter().map(|c| c.to_string()).collect();
+            ctx.op(format!("heap.add 7 {} {} {}", id, id % 3, cols.join(" ")));
+        }
+        let a = ctx.op("heap.clonefrom 7 1".into());
+        if a == "ok" {
+            ctx.stat("heap.clonefrom", 1);
+            ctx.op("both heap.iter 7 1".into());
+            ctx.op("both heap.empty 7 1".into());
+            for _ in 0..(4 * k + 8) {
+                let id = if ctx.rng.chance(1, 3) { 900 + ctx.rng.below(2 * k + 2) } else { ctx.rng.below(alpha) };
+                let class = id % nclass;
+                let cols: Vec<String> = crate::exec::heap_cols(w as usize, d as usize, class).iter().map(|c| c.to_string()).collect();
+                ctx.op(format!("both heap.add 7 1 {} {} {}", id, class, cols.join(" ")));
+                ctx.op("both heap.iter 7 1".into());
+            }
+        }
+    }
     if ctx.rng.chance(1, 8) {
         ctx.op("heap.new 5 0 4 4".into());
     }
@@ -589,6 +790,13 @@ pub fn td_history_shaped(ctx: &mut Ctx, n: u64, force_atom: Option<bool>) {
     ctx.op("td.empty 1".into());
     ctx.op(format!("td.quantile 1 {}", fx(0.5)));
     ctx.op(format!("td.cdf 1 {}", fx(0.0)));
+    // every legal argument on the empty digest (cdf only rejects NaN)
+    for x in [f64::INFINITY, f64::NEG_INFINITY, f64::MAX, f64::MIN, -0.0, 5e-324] {
+        ctx.op(format!("td.cdf 1 {}", fx(x)));
+    }
+    for q in [0.0, 1.0, -0.0] {
+        ctx.op(format!("td.quantile 1 {}", fx(q)));
+    }
     let shape = if force_atom.is_some() { 6 } else { ctx.rng.below(7) };
     let near = *ctx.rng.pick(&[0.1f64, 0.3, 1e-3, 7.7, 123.456, 1e10 / 3.0]);
     let weighted = if force_atom.is_some() { true } else if shape == 6 { ctx.rng.chance(2, 3) } else { ctx.rng.chance(1, 3) };
@@ -710,6 +918,8 @@ pub fn td_history_shaped(ctx: &mut Ctx, n: u64, force_atom: Option<bool>) {
         ctx.op("td.empty 1".into());
         ctx.op(format!("td.quantile 1 {}", fx(0.5)));
         ctx.op(format!("td.cdf 1 {}", fx(1.0)));
+        ctx.op(format!("td.cdf 1 {}", fx(f64::INFINITY)));
+        ctx.op(format!("td.cdf 1 {}", fx(f64::NEG_INFINITY)));
         ctx.op("td.count 1".into());
         ctx.op("td.mean 1".into());
         ctx.op("td.min 1".into());
@@ -719,6 +929,35 @@ pub fn td_history_shaped(ctx: &mut Ctx, n: u64, force_atom: Option<bool>) {
         }
         ctx.op("td.ncent 1".into());
         ctx.op(format!("td.quantile 1 {}", fx(0.3)));
+    }
+    // clone_from into a digest with another compression / backlog size / sample count whose
+    // backlog is not empty (fewer inserts than its backlog size and no read since)
+    if ctx.rng.chance(1, 2) {
+        let scale2 = if ctx.rng.chance(3, 4) { scale } else { ctx.rng.below(4) };
+        let delta2 = *ctx.rng.pick(&[delta, 2.0 * delta + 1.0, 1.5, 1000.0, 500.0]);
+        let bl2 = *ctx.rng.pick(&[bl, 0, 3, 50]);
+        ctx.op(format!("td.new 7 {} {} {}", scale2, fx(delta2), bl2));
+        for t in 0..ctx.rng.clone().below(4) {
+            ctx.op(format!("td.insertw 7 {} {}", fx(-50.0 - t as f64), fx(if t == 0 { 7.0 } else { 1.0 })));
+        }
+        let a = ctx.op("td.clonefrom 7 1".into());
+        if a == "ok" {
+            ctx.stat("td.clonefrom", 1);
+            ctx.op("both td.getters 7 1".into());
+            for o in ["td.count", "td.sum", "td.min", "td.max", "td.ncent", "td.empty"] {
+                ctx.op(format!("both {} 7 1", o));
+            }
+            for t in 0..ctx.rng.clone().range(3, 60) {
+                let x = (ctx.rng.f01() - 0.3) * 1000.0 * (1.0 + t as f64);
+                ctx.op(format!("both td.insert 7 1 {}", fx(x)));
+            }
+            for o in ["td.count", "td.sum", "td.min", "td.max", "td.ncent"] {
+                ctx.op(format!("both {} 7 1", o));
+            }
+            for i in 0..=4 {
+                ctx.op(format!("both td.quantile 7 1 {}", fx(i as f64 / 4.0)));
+            }
+        }
     }
     if ctx.rng.chance(1, 6) {
         ctx.op(format!("td.new 5 0 {} 3", fx(1.0)));
